@@ -240,7 +240,7 @@ func Explore(prog *Program, harness string, opts ExploreOpts) (*HarnessResult, e
 				select {
 				case <-done:
 					return
-				case <-time.After(5 * time.Second):
+				case <-time.After(30 * time.Second):
 					mu.Lock()
 					fmt.Printf("  .. %s paths=%d queue=%d active=%d steps=%d findings=%d ends=%v\n", harness, res.Paths, len(work), active, res.Steps, len(res.Findings), res.Ends)
 					mu.Unlock()
